@@ -691,8 +691,17 @@ func textCheck(w *World, mi *MIdx, op Op, i int, state string) bool {
 		if op.KK < len(all) {
 			next = all[op.KK].d
 		}
+		// "a tie": within the resolution of the stored precision - the engine ranks by distances between
+		// quantised vectors (and a quantised query), these are distances between what VGet reads back
+		margin := math.Abs(next)*1e-6 + 1e-9
+		switch mi.Cfg.Prec {
+		case "float16":
+			margin += 0.01
+		case "int8":
+			margin += 0.08
+		}
 		for _, x := range all {
-			if x.d < next-math.Abs(next)*1e-6-1e-9 {
+			if x.d < next-margin {
 				vtop[x.id] = true
 			}
 		}
